@@ -491,10 +491,15 @@ fn run_scenario(case: &Case, obs: &mut Obs, replica: usize) -> (Option<Violation
     (None, outcomes)
 }
 
-fn gen_case(seed: u64) -> Case {
-    let mut rng = Rng::sub(seed, "workload");
-    let mut hs = Rng::sub(seed, "hashkeys");
-    let mut fs = Rng::sub(seed, "faults");
+pub struct StoreIds {
+    pub users: Vec<String>,
+    pub groups: Vec<String>,
+    pub docs: Vec<String>,
+    pub folders: Vec<String>,
+}
+
+/// A schema-conformant store by construction (some referenced entities deliberately have no record).
+pub fn gen_store_ids(rng: &mut Rng) -> (Vec<Value>, StoreIds) {
     let nu = rng.range(1, 5);
     let ng = rng.range(0, 3);
     let nd = rng.range(1, 4);
@@ -524,7 +529,7 @@ fn gen_case(seed: u64) -> Case {
         let mut attrs = serde_json::Map::new();
         attrs.insert("depth".into(), json!(rng.below(4) as i64));
         if rng.pct(70) {
-            attrs.insert("admin".into(), uid_json("User", pk(&mut rng, &users)));
+            attrs.insert("admin".into(), uid_json("User", pk(&mut *rng, &users)));
         }
         ents.push(json!({"uid": {"type": "Folder", "id": f}, "attrs": attrs, "parents": ps}));
     }
@@ -533,15 +538,15 @@ fn gen_case(seed: u64) -> Case {
         attrs.insert("level".into(), json!(rng.below(6) as i64));
         attrs.insert("active".into(), json!(rng.pct(70)));
         if rng.pct(80) {
-            attrs.insert("manager".into(), uid_json("User", pk(&mut rng, &users)));
+            attrs.insert("manager".into(), uid_json("User", pk(&mut *rng, &users)));
         }
         let mut fr = vec![];
         for _ in 0..rng.below(3) {
-            fr.push(uid_json("User", pk(&mut rng, &users)));
+            fr.push(uid_json("User", pk(&mut *rng, &users)));
         }
         attrs.insert("friends".into(), Value::Array(fr));
         if rng.pct(60) {
-            attrs.insert("home".into(), uid_json("Folder", pk(&mut rng, &folders)));
+            attrs.insert("home".into(), uid_json("Folder", pk(&mut *rng, &folders)));
         }
         let mut ps = vec![];
         for g in &groups {
@@ -553,15 +558,15 @@ fn gen_case(seed: u64) -> Case {
     }
     for d in docs.iter().take(nd) {
         let mut attrs = serde_json::Map::new();
-        attrs.insert("owner".into(), uid_json("User", pk(&mut rng, &users)));
+        attrs.insert("owner".into(), uid_json("User", pk(&mut *rng, &users)));
         let mut rd = vec![];
         for _ in 0..rng.below(3) {
-            rd.push(uid_json("User", pk(&mut rng, &users)));
+            rd.push(uid_json("User", pk(&mut *rng, &users)));
         }
         attrs.insert("readers".into(), Value::Array(rd));
         attrs.insert("public".into(), json!(rng.pct(50)));
         if rng.pct(60) {
-            attrs.insert("parent".into(), uid_json("Doc", pk(&mut rng, &docs)));
+            attrs.insert("parent".into(), uid_json("Doc", pk(&mut *rng, &docs)));
         }
         let mut ps = vec![];
         for f in &folders {
@@ -576,6 +581,19 @@ fn gen_case(seed: u64) -> Case {
         ents.push(e);
     }
     rng.shuffle(&mut ents);
+    (ents, StoreIds { users, groups, docs, folders })
+}
+
+pub fn gen_store(rng: &mut Rng) -> Vec<Value> {
+    gen_store_ids(rng).0
+}
+
+fn gen_case(seed: u64) -> Case {
+    let mut rng = Rng::sub(seed, "workload");
+    let mut hs = Rng::sub(seed, "hashkeys");
+    let mut fs = Rng::sub(seed, "faults");
+    let (ents, ids) = gen_store_ids(&mut rng);
+    let StoreIds { users, groups, docs, folders } = ids;
     let np = rng.range(1, 6);
     let mut policies = vec![];
     for _ in 0..np {
